@@ -66,9 +66,11 @@ def alphabet(dtname, level, seed):
 # ------------------------------------------------------------------ renormalize
 
 
-def renorm_call(fa, dtname, cols, functional, fast, size):
+def renorm_call(fa, dtname, cols, functional, fast, size, fix_overflow=False):
     ap = fa.apmath
     ctx = fa.utils.NumpyContext(DT[dtname])
+    if fix_overflow:
+        return ap.renormalize(ctx, list(cols), functional=functional, fast=fast, size=size, fix_overflow=True)
     return ap.renormalize(ctx, list(cols), functional=functional, fast=fast, size=size)
 
 
@@ -168,57 +170,58 @@ def check_renorm(part, fa, dtname, cols, routes=("numpyctx", "traced", "eager"),
         decreasing &= ~nz | okstep
         last = np.where(nz, m, last)
     part["nontrivial"] += int((safe & (sum((m != 0).astype(int) for m in mags) >= 2)).sum())
-    for functional in (True, False):
-        for fast in (False, True):
-            dom = safe & (decreasing if fast else True)
-            if not dom.any():
-                continue
-            for size in (None, 1, 2, n):
-                if size is not None and size > n:
+    for fixo in (False, True):
+        for functional in (True, False):
+            for fast in (False, True):
+                dom = safe & (decreasing if fast else True)
+                if not dom.any():
                     continue
-                label = f"renormalize[functional={functional},fast={fast},size={size},n={n}]"
-                sigbase = f"renormalize:{dtname}:functional={functional}:fast={fast}:size={'None' if size is None else ('len' if size == n else size)}"
-                if functional:
-                    for route in ("numpyctx", "traced"):
-                        if route not in routes:
-                            continue
-                        try:
-                            with np.errstate(all="ignore"):
-                                if route == "numpyctx":
-                                    res = renorm_call(fa, dtname, cols, True, fast, size)
-                                else:
-                                    fn = traced_renorm(fa, dtname, n, fast, size)
-                                    if isinstance(fn, Exception):
-                                        raise fn
-                                    res = fn(*cols)
-                                    if not isinstance(res, (list, tuple)):
-                                        res = [res]
-                        except Exception as e:
-                            add_violation(part, f"{sigbase}:{route}:raises", f"{label} via {route} raised {type(e).__name__}: {e}", {"kind": "list", "sig": sigbase, "dtype": dtname, "xs": [float(c[0]).hex() for c in cols]})
-                            continue
-                        R = as_cols(res, N, t)
-                        judge_renorm_result(part, fa, f"{sigbase}:{route}", label + " via " + route, dtname, cols, R, exact, dom, size, n, True, fast)
-                elif "eager" in routes:
-                    idx = np.flatnonzero(dom)[::eager_stride]
-                    if not len(idx):
+                for size in ((None, 1, 2, n) if not fixo else (None,)):
+                    if size is not None and size > n:
                         continue
-                    outs = []
-                    ok_idx = []
-                    for i in idx:
-                        try:
-                            with np.errstate(all="ignore"):
-                                r = renorm_call(fa, dtname, [c[i] for c in cols], False, fast, size)
-                        except Exception as e:
-                            add_violation(part, f"{sigbase}:eager:raises", f"{label} raised {type(e).__name__}: {e} on {[float(c[i]) for c in cols]}", {"kind": "list", "sig": sigbase, "dtype": dtname, "xs": [float(c[i]).hex() for c in cols]})
+                    label = f"renormalize[functional={functional},fast={fast},size={size},n={n}{',fix_overflow=True' if fixo else ''}]"
+                    sigbase = f"renormalize:{dtname}:functional={functional}:fast={fast}:size={'None' if size is None else ('len' if size == n else size)}" + (":fix_overflow" if fixo else "")
+                    if functional:
+                        for route in ("numpyctx", "traced"):
+                            if route not in routes or (fixo and route == "traced"):
+                                continue
+                            try:
+                                with np.errstate(all="ignore"):
+                                    if route == "numpyctx":
+                                        res = renorm_call(fa, dtname, cols, True, fast, size, fixo)
+                                    else:
+                                        fn = traced_renorm(fa, dtname, n, fast, size)
+                                        if isinstance(fn, Exception):
+                                            raise fn
+                                        res = fn(*cols)
+                                        if not isinstance(res, (list, tuple)):
+                                            res = [res]
+                            except Exception as e:
+                                add_violation(part, f"{sigbase}:{route}:raises", f"{label} via {route} raised {type(e).__name__}: {e}", {"kind": "list", "sig": sigbase, "dtype": dtname, "xs": [float(c[0]).hex() for c in cols]})
+                                continue
+                            R = as_cols(res, N, t)
+                            judge_renorm_result(part, fa, f"{sigbase}:{route}", label + " via " + route, dtname, cols, R, exact, dom, size, n, True, fast)
+                    elif "eager" in routes:
+                        idx = np.flatnonzero(dom)[::eager_stride]
+                        if not len(idx):
                             continue
-                        outs.append(list(r) + [t(0)] * (n - len(r)))
-                        ok_idx.append(i)
-                    if not outs:
-                        continue
-                    ok_idx = np.array(ok_idx)
-                    R = [np.array([o[j] for o in outs], dtype=t) for j in range(n)]
-                    sub = [c[ok_idx] for c in cols]
-                    judge_renorm_result(part, fa, f"{sigbase}:eager", label + " (eager)", dtname, sub, R, exact[ok_idx], np.ones(len(ok_idx), bool), size, n, False, fast)
+                        outs = []
+                        ok_idx = []
+                        for i in idx:
+                            try:
+                                with np.errstate(all="ignore"):
+                                    r = renorm_call(fa, dtname, [c[i] for c in cols], False, fast, size, fixo)
+                            except Exception as e:
+                                add_violation(part, f"{sigbase}:eager:raises", f"{label} raised {type(e).__name__}: {e} on {[float(c[i]) for c in cols]}", {"kind": "list", "sig": sigbase, "dtype": dtname, "xs": [float(c[i]).hex() for c in cols]})
+                                continue
+                            outs.append(list(r) + [t(0)] * (n - len(r)))
+                            ok_idx.append(i)
+                        if not outs:
+                            continue
+                        ok_idx = np.array(ok_idx)
+                        R = [np.array([o[j] for o in outs], dtype=t) for j in range(n)]
+                        sub = [c[ok_idx] for c in cols]
+                        judge_renorm_result(part, fa, f"{sigbase}:eager", label + " (eager)", dtname, sub, R, exact[ok_idx], np.ones(len(ok_idx), bool), size, n, False, fast)
 
 
 def judge_renorm_result(part, fa, sig, label, dtname, cols, R, exact, dom, size, n, functional, fast):
@@ -455,6 +458,43 @@ def w_arith_general(task):
                             add_violation(part, f"multiply:{dtname}:functional={functional}:error>=1ulp-of-leading-term:general-list", f"multiply({e1},{e2}) = {r}: error {float(err)!r}", case)
                     elif fsum(r) != exact:
                         add_violation(part, f"{op}:{dtname}:functional={functional}:inexact:general-list", f"{op}({e1},{e2}, functional={functional}) = {r} sums to {float(fsum(r))!r}, exact {float(exact)!r}", case)
+    # size limits: when the exact result fits into `size` non-zero terms no truncation takes place, so the result must
+    # still be exact (operands longer than the limit, cancelling leading terms)
+    p = f["p"]
+    u = float(np.ldexp(1.0, -(p - 1)))
+    T = [t(v) for v in (1.0, 1.0 + u, 1.5 * u, -u / 2, 1.25 * u * u, 0.0)]
+    tails = [[a, b, c] for a in T for b in T for c in T]
+    for e1 in [l for l in lists if len(l) <= 2][task["lo"]::task["stride"]]:
+        s1 = fsum(e1)
+        for e2 in tails[:: task["pair_stride"]]:
+            s2 = fsum(e2)
+            for swap in (False, True):
+                a_, b_ = (e2, e1) if swap else (e1, e2)
+                for op, exact in (("add", s1 + s2), ("subtract", (s2 - s1) if swap else (s1 - s2))):
+                    try:
+                        with np.errstate(all="ignore"):
+                            full = getattr(ap, op)(ctx, list(a_), list(b_), functional=False)
+                    except Exception:
+                        continue
+                    if fsum(full) != exact:
+                        continue  # judged (and reported) by the unlimited sub-check
+                    nz = len([v for v in full if v != 0])
+                    for size in (1, 2):
+                        if nz > size:
+                            continue
+                        for functional in (False, True):
+                            part["evaluations"] += 1
+                            case = {"kind": "arith", "op": op, "dtype": dtname, "functional": functional, "e1": [float(v).hex() for v in a_], "e2": [float(v).hex() for v in b_], "general": True, "size": size}
+                            try:
+                                with np.errstate(all="ignore"):
+                                    r = getattr(ap, op)(ctx, list(a_), list(b_), functional=functional, size=size)
+                            except Exception as ex:
+                                add_violation(part, f"{op}:{dtname}:functional={functional}:raises:size-limit", f"{op}({a_},{b_}, size={size}) raised {type(ex).__name__}: {ex}", case)
+                                continue
+                            if fsum(r) != exact:
+                                add_violation(part, f"{op}:{dtname}:functional={functional}:inexact-although-result-fits-size-limit", f"{op}({a_},{b_}, functional={functional}, size={size}) = {r} sums to {float(fsum(r))!r}; the exact result {float(exact)!r} has {nz} non-zero term(s) ({full})", case)
+                            if len([v for v in r if v != 0]) > size:
+                                add_violation(part, f"{op}:{dtname}:functional={functional}:more-than-size-terms", f"{op}({a_},{b_}, size={size}) = {r}", case)
     if rows:
         part["samples"].append({"arith_general": dtname, "e1": [float(v) for v in rows[0]], "lists": len(lists)})
     return part
@@ -661,7 +701,8 @@ def replay(case):
                     r = ap.square(ctx, e1, functional=case["functional"])
                     exact = fsum(e1) ** 2
                 else:
-                    r = getattr(ap, op)(ctx, e1, e2, functional=case["functional"])
+                    kw = {"size": case["size"]} if case.get("size") else {}
+                    r = getattr(ap, op)(ctx, e1, e2, functional=case["functional"], **kw)
                     exact = {"add": fsum(e1) + fsum(e2), "subtract": fsum(e1) - fsum(e2), "multiply": fsum(e1) * fsum(e2)}[op]
                 if op in ("add", "subtract"):
                     if fsum(r) != exact:
